@@ -1,6 +1,9 @@
 import PqlModel.Props.C02
 import PqlModel.Props.C02Split
 import PqlModel.Props.C05SplitRefines
+import PqlModel.Props.C02Semantics
+import PqlModel.Props.C02Statement
+import PqlModel.Props.C02SemanticsCex
 #print axioms Pql.C02.C02_canAttachSort_table
 #print axioms Pql.C02.C02_top_eq_sort_take
 #print axioms Pql.C02.C02_spec_top
@@ -18,3 +21,21 @@ import PqlModel.Props.C05SplitRefines
 #print axioms Pql.C02.C02_sort_attaches
 #print axioms Pql.C02.C02_take_attaches
 #print axioms Pql.C02.C02_pipeline_order_semantics
+#print axioms Pql.C02.C02_sel_none
+#print axioms Pql.C02.C02_sel_as
+#print axioms Pql.C02.C02_sel_where
+#print axioms Pql.C02.C02_sel_count
+#print axioms Pql.C02.C02_sel_render
+#print axioms Pql.C02.C02_sel_extend
+#print axioms Pql.C02.C02_sel_project
+#print axioms Pql.C02.C02_sel_summarize
+#print axioms Pql.C02.C02_statement_semantics_ctes
+#print axioms Pql.C02.C02_statement_interp
+#print axioms Pql.C02.C02_statement_semantics_asNames
+#print axioms Pql.C02.C02_intended_semantics
+#print axioms Pql.C02.Cex.C02_project_agg_differs
+#print axioms Pql.C02.Cex.C02_extend_agg_differs
+#print axioms Pql.C02.Cex.C02_summarize_plain_differs
+#print axioms Pql.C02.Cex.C02_project_sort_differs
+#print axioms Pql.C02.Cex.C02_summarize_sort_differs
+#print axioms Pql.C02.Cex.C02_duplicate_names_differ
